@@ -273,15 +273,23 @@ class Engine:
         self.check_fingerprints()
 
     def check_fingerprints(self):
+        """loop contracts are matched to the loops of the source by fingerprint, in order (not by bare ordinal): a deleted or added
+        loop must not shift the remaining invariants onto the wrong loops.  A source loop without a contract makes the function
+        undecided; a contract loop that no longer exists in the source is dropped (its absence shows in the post-conditions)."""
         want = self.fc.get('loops', {})
-        if len(want) != len(self.loop_nodes) and not self.fc.get('loops_partial'):
-            raise Unsupported(f'{self.qualname}: contract has {len(want)} loop(s), source has {len(self.loop_nodes)}')
-        for k, lc in want.items():
-            if k >= len(self.loop_nodes):
-                raise Unsupported(f'{self.qualname}: no loop #{k}')
-            fp = lc.get('fingerprint')
-            if fp is not None and fp != loop_fingerprint(self.loop_nodes[k]):
-                raise Unsupported(f'{self.qualname}: loop #{k} is `{loop_fingerprint(self.loop_nodes[k])}`, contract written for `{fp}`')
+        self.loop_contract = {}          # source ordinal -> (contract ordinal, loop contract)
+        ks = sorted(want); pos = 0
+        for src_k, node in enumerate(self.loop_nodes):
+            fp = loop_fingerprint(node)
+            found = None
+            for j in range(pos, len(ks)):
+                cfp = want[ks[j]].get('fingerprint')
+                if cfp is None or cfp == fp:
+                    found = j; break
+            if found is None:
+                raise Unsupported(f'{self.qualname}: loop `{fp}` has no invariant in the contract')
+            self.loop_contract[src_k] = (ks[found], want[ks[found]]); pos = found + 1
+        self.dropped_loops = [k for k in ks if k not in [v[0] for v in self.loop_contract.values()]]
 
     def mangle(self, name):
         if name.startswith('__') and not name.endswith('__') and self.cls:
@@ -879,10 +887,10 @@ class Engine:
         return names
 
     def loop(self, stmt, st, guard_fn, pre_body_fn, extra_havoc=()):
-        k = self.loop_ids[id(stmt)]
-        if k not in self.fc.get('loops', {}):
-            raise Unsupported(f'{self.qualname}: loop #{k} `{loop_fingerprint(stmt)}` has no invariant')
-        lc = self.fc['loops'][k]
+        src_k = self.loop_ids[id(stmt)]
+        if src_k not in self.loop_contract:
+            raise Unsupported(f'{self.qualname}: loop `{loop_fingerprint(stmt)}` has no invariant')
+        k, lc = self.loop_contract[src_k]          # k: the contract's ordinal (names of obligations and of the index variable _i<k>)
         entry = st.fork()
         for lab, inv in lc['invariant']:
             st.oblige(f'inv-init#{k}/{lab}', self.spec(inv, st, entry=entry), f'loop @{stmt.lineno}')
@@ -930,7 +938,7 @@ class Engine:
                 r = h(self, stmt, st)
                 if r is not NotImplemented: return r
         it = stmt.iter
-        k = self.loop_ids[id(stmt)]; idx = f'_i{k}'
+        k = self.loop_contract.get(self.loop_ids[id(stmt)], (self.loop_ids[id(stmt)], None))[0]; idx = f'_i{k}'
         self.locals[idx] = INT
         if isinstance(it, ast.Call) and isinstance(it.func, ast.Name) and it.func.id == 'range' and len(it.args) == 2:
             s0, lo = self.ev1(it.args[0], st); s0, hi = self.ev1(it.args[1], s0)
